@@ -125,3 +125,29 @@ V_ENSURES(g.fd_opened == V_OLD(g.fd_opened) + (((type == M_SRC_TYPE_FD || type =
           && V_IMP(type > M_SRC_TYPE_FD, V_RET->fd_src.fd == -1))                                                                                 /*@C20.duplicated-descriptor-is-owned-and-auto-closed*/
 ;
 #endif
+
+#ifdef V_PROCPS_UNIT
+/* process_ps(): receiving one pub/sub message.  Ghost pipe as in the flush unit: g.pipe_len pointers pending, the head one is g_pmsg. */
+V_CONTRACT
+ssize_t v_read(int fd, void *buf, size_t n)
+V_REQUIRES(buf != NULL && n == sizeof(void *) && V_RW_OK(buf, sizeof(void *)) && fd == g_psrc->fd_src.fd)                                     /*@C08.reads-one-pointer-from-the-modules-own-pipe*/
+V_ASSIGNS(g.read_calls, g.pipe_len, g_errno, *(ps_priv_t **)buf)
+V_ENSURES(g.read_calls == V_OLD(g.read_calls) + 1)
+V_ENSURES(V_OLD(g.pipe_len) > 0 ? (V_RET == (ssize_t)sizeof(void *) && g.pipe_len == V_OLD(g.pipe_len) - 1 && __CPROVER_pointer_equals(*(ps_priv_t **)buf, g_pmsg))
+                                : (V_RET == -1 && g.pipe_len == 0 && g_errno > 0 && g_errno < 200))
+;
+V_CONTRACT
+static ev_src_t *process_ps(ev_src_t *this, m_ctx_t *c, int idx, evt_priv_t *evt)
+V_REQUIRES(v_base_ok() && this == g_psrc && V_RW_OK(g_psrc, sizeof(ev_src_t)) && evt != NULL && V_RW_OK(evt, sizeof(evt_priv_t)) && evt->src == g_psrc && evt->evt.ps_evt == NULL
+           && g_pmsg != NULL && V_RW_OK(g_pmsg, sizeof(ps_priv_t)) && (g_pmsg->sub == NULL || V_R_OK(g_pmsg->sub, sizeof(ev_src_t))) && g.pipe_len < ((size_t)1 << 60))
+V_ASSIGNS(g.read_calls, g.pipe_len, g_errno, evt->evt.ps_evt, evt->src, g.ref_calls, g.ref_arg, g.unref_calls, g.unref_arg, g.unref_arg_prev)
+/* a pending message: exactly the head of the pipe is taken (one read), the event carries it, and the event's source becomes the subscription the message
+ * was matched with (none for tell / broadcast / system-direct messages); reference balance: the pipe source's reference held by the event is given back,
+ * one is taken on the subscription */
+V_ENSURES(V_IMP(V_OLD(g.pipe_len) > 0, g.read_calls == V_OLD(g.read_calls) + 1 && g.pipe_len == V_OLD(g.pipe_len) - 1 && evt->evt.ps_evt == &g_pmsg->msg
+                && evt->src == g_pmsg->sub && V_RET == g_pmsg->sub))                                                                         /*@C08.event-carries-the-message-at-the-head-of-the-pipe*/
+V_ENSURES(V_IMP(V_OLD(g.pipe_len) > 0, g.unref_calls == V_OLD(g.unref_calls) + 1 && g.unref_arg == (void *)g_psrc && g.ref_calls == V_OLD(g.ref_calls) + 1 && g.ref_arg == (void *)g_pmsg->sub))  /*@C04.event-source-reference-moves-from-the-pipe-to-the-subscription*/
+/* nothing to read: the event stays empty (the loop then discards it), nothing is referenced or released */
+V_ENSURES(V_IMP(V_OLD(g.pipe_len) == 0, evt->evt.ps_evt == NULL && evt->src == g_psrc && V_RET == g_psrc && g.ref_calls == V_OLD(g.ref_calls) && g.unref_calls == V_OLD(g.unref_calls)))
+;
+#endif
